@@ -178,6 +178,58 @@ class CounterAssign(ast.NodeTransformer):
     visit_AsyncFunctionDef = visit_FunctionDef
 
 
+class Hoist(ast.NodeTransformer):
+    """`x = f(a) <op> b`  ->  `_h1 = f(a); x = _h1 <op> b`: the first call evaluated by a binary expression is bound to a temporary
+    (everything evaluated before it must be a plain name / constant / attribute load, so the evaluation order is unchanged)."""
+
+    def __init__(self):
+        self.n = 0
+
+    def visit_FunctionDef(self, node):
+        self.generic_visit(node)
+
+        def pure(e):
+            return isinstance(e, (ast.Name, ast.Constant)) or (isinstance(e, ast.Attribute) and pure(e.value))
+
+        def first_call(e):
+            """(parent, field, call) of the first Call in evaluation order under pure prefixes, or None"""
+            if isinstance(e, ast.BinOp):
+                if isinstance(e.left, ast.Call):
+                    return e, "left", e.left
+                if isinstance(e.left, ast.BinOp):
+                    r = first_call(e.left)
+                    if r is not None:
+                        return r
+                    return None
+                if pure(e.left):
+                    if isinstance(e.right, ast.Call):
+                        return e, "right", e.right
+                    if isinstance(e.right, ast.BinOp):
+                        return first_call(e.right)
+            return None
+
+        def rewrite(stmts):
+            out = []
+            for st in stmts:
+                for f in ("body", "orelse", "finalbody"):
+                    if hasattr(st, f) and isinstance(getattr(st, f), list) and not isinstance(st, (ast.FunctionDef, ast.AsyncFunctionDef, ast.ClassDef)):
+                        setattr(st, f, rewrite(getattr(st, f)))
+                if isinstance(st, ast.Assign) and len(st.targets) == 1 and isinstance(st.targets[0], ast.Name) and isinstance(st.value, ast.BinOp):
+                    r = first_call(st.value)
+                    if r is not None:
+                        par, field, call = r
+                        self.n += 1
+                        nm = f"_h{self.n}"
+                        out.append(ast.Assign(targets=[ast.Name(id=nm, ctx=ast.Store())], value=call))
+                        setattr(par, field, ast.Name(id=nm, ctx=ast.Load()))
+                out.append(st)
+            return out
+        node.body = rewrite(node.body)
+        return node
+
+    visit_AsyncFunctionDef = visit_FunctionDef
+
+
 class Yoda(ast.NodeTransformer):
     MIRROR = {ast.Lt: ast.Gt, ast.Gt: ast.Lt, ast.LtE: ast.GtE, ast.GtE: ast.LtE, ast.Eq: ast.Eq, ast.NotEq: ast.NotEq}
 
@@ -228,7 +280,7 @@ class TorchFn(ast.NodeTransformer):
         return node
 
 
-TRANSFORMS = {"demorgan": DeMorgan, "ifswap": IfSwap, "torchfn": TorchFn, "rename": Renamer, "size": SizeCall, "shape": ShapeIndex, "yoda": Yoda, "commute": Commute, "dimkw": DimKw, "unelse": UnElse, "tempret": TempReturn, "counter": CounterAssign, "format": None}
+TRANSFORMS = {"demorgan": DeMorgan, "ifswap": IfSwap, "torchfn": TorchFn, "rename": Renamer, "size": SizeCall, "shape": ShapeIndex, "yoda": Yoda, "commute": Commute, "dimkw": DimKw, "unelse": UnElse, "tempret": TempReturn, "counter": CounterAssign, "hoist": Hoist, "format": None}
 
 
 
@@ -262,7 +314,7 @@ def build(root: str, kind: str):
     return ov
 
 
-def run_equivalences(ctx, kinds=("rename", "yoda", "dimkw", "commute", "size", "tempret", "unelse", "demorgan", "ifswap", "torchfn", "counter")):
+def run_equivalences(ctx, kinds=("rename", "yoda", "dimkw", "commute", "size", "tempret", "unelse", "demorgan", "ifswap", "torchfn", "counter", "hoist")):
     """thorough tier: the rule module must report exactly the same failing (rule, construct) pairs on each rewritten repo"""
     from ..core import Ctx
     from ..model import AnalysisError, Repo
